@@ -136,6 +136,7 @@ type Exec struct {
 	inlined   map[string]bool
 	assumed   map[string]bool // assumed (external/trusted) contracts used
 	usedCtr   map[string]bool // callee contracts used
+	renamed   map[string]bool // contract identifier -> renamed loop variable it was resolved to
 	noSafety  bool            // do not emit implicit safety obligations (only for trusted replays)
 	retHook   func(st *State, fr *Frame, rets []Value)
 	inputObjs map[int]bool
@@ -1696,6 +1697,45 @@ func (ex *Exec) loopEnv(st *State, fr *Frame, li *loopInfo, phis []*ssa.Phi) *En
 		cnt[ts]++
 		env.bind(fmt.Sprintf("phi_%s_%d", ts, cnt[ts]), fr.regs[p], p.Type())
 	}
+	// a loop-carried local that was renamed in the source: when exactly one identifier of this loop's clauses cannot
+	// be resolved and exactly one loop-carried variable is not mentioned by them, the clause means that variable
+	// (sound: whatever the invariant then says is still proved inductive before it is used)
+	if fr.fc != nil {
+		if lc := fr.fc.Loops[li.ordinal]; lc != nil {
+			used := map[string]bool{}
+			for _, c := range lc.Invariants {
+				collectIdents(c.Expr, used)
+			}
+			if lc.Decreases != nil {
+				collectIdents(lc.Decreases.Expr, used)
+			}
+			var unknown []string
+			for name := range used {
+				if _, ok := env.vars[name]; ok || isSpecOrBuiltinName(ex.L, name) {
+					continue
+				}
+				if env.pkg != nil && env.pkg.Scope().Lookup(name) != nil {
+					continue
+				}
+				if types.Universe.Lookup(name) != nil {
+					continue
+				}
+				unknown = append(unknown, name)
+			}
+			var spare []*ssa.Phi
+			for _, p := range phis {
+				if p.Comment != "" && !used[p.Comment] {
+					spare = append(spare, p)
+				}
+			}
+			if len(unknown) == 1 && len(spare) == 1 {
+				env.bind(unknown[0], fr.regs[spare[0]], spare[0].Type())
+				if ex.renamed != nil {
+					ex.renamed[unknown[0]+" -> "+spare[0].Comment] = true
+				}
+			}
+		}
+	}
 	if li.rangeIx != nil {
 		ix := fr.regs[li.rangeIx].(VInt).T
 		env.bind("__k", VInt{Add(ix, Const(64, 1))}, types.Typ[types.Int])
@@ -1829,4 +1869,36 @@ func (ex *Exec) loopBackEdge(st *State, fr *Frame, li *loopInfo, cut *cutInfo, p
 	nv := ex.evalIntClause(st, env, v)
 	g := And(SLe(Const(64, 0), cut.variant), SLt(nv, cut.variant))
 	ex.emit(st, fr, fmt.Sprintf("term/loop%d", li.ordinal), "", "decreases "+v.Text, g, v.Props, li.header.Instrs[0].Pos())
+}
+
+// collectIdents gathers the plain identifiers of a contract expression.
+func collectIdents(e ast.Expr, out map[string]bool) {
+	ast.Inspect(e, func(n ast.Node) bool {
+		switch x := n.(type) {
+		case *ast.SelectorExpr:
+			collectIdents(x.X, out)
+			return false
+		case *ast.CallExpr:
+			if _, ok := x.Fun.(*ast.Ident); ok {
+				for _, a := range x.Args {
+					collectIdents(a, out)
+				}
+				return false
+			}
+		case *ast.Ident:
+			out[x.Name] = true
+		}
+		return true
+	})
+}
+
+func isSpecOrBuiltinName(L *Loaded, name string) bool {
+	if _, ok := L.Contracts.Specs[name]; ok {
+		return true
+	}
+	switch name {
+	case "__k", "__rangeindex", "__rangelen", "true", "false", "nil":
+		return true
+	}
+	return false
 }
